@@ -153,24 +153,28 @@ def main(tier: str, seed: int) -> int:
                   (4, 3, [0, 1, 3], [2]), (3, 4, [0, 1, 2], [1, 2])]
     from concurrent.futures import ThreadPoolExecutor
 
+    import os
+    import tempfile
+    sdir = tempfile.mkdtemp(prefix='verif_c17_')
     with ThreadPoolExecutor(max_workers=3) as ex:
         runs = list(ex.map(
-            lambda sc: assign.run_assign('greedy', sc[0], sc[1], sc[2], {},
-                                         nf=sc[3], workers=5, timeout=7200),
-            scopes))
-    tuples = []
+            lambda a: assign.run_assign(
+                'greedy', a[1][0], a[1][1], a[1][2], {}, nf=a[1][3],
+                workers=5, timeout=7200,
+                stream_to=os.path.join(sdir, f'emit{a[0]}.txt')),
+            list(enumerate(scopes))))
     distinct = generated = 0
-    for r, tps in runs:
+    for r, _ in runs:
         if not r.ok:
             v.violation(f'TLC: {r.violated} on spec/KfacAssign.tla (greedy)\n'
                         f'{r.error_text[:1500]}',
                         {'kind': 'spec', 'inv': str(r.violated)})
-        if len(tps) != r.distinct:
-            raise RuntimeError(
-                f'emitted {len(tps)} tuples but TLC found {r.distinct}')
-        tuples += tps
         distinct += r.distinct
         generated += r.generated
+
+    def all_tuples():
+        for _, it in runs:
+            yield from it
 
     class R:
         pass
@@ -180,7 +184,29 @@ def main(tier: str, seed: int) -> int:
     bad = 0
     drift = 0
     nontrivial = set()
-    for tp in tuples:
+    ntuples = 0
+    sample = None
+    tie_tuples = []
+    import random as _r
+    rs = _r.Random(seed)
+    cap = 400 if tier == 'quick' else 5000
+
+    def ties(tp):
+        tot = [sum(x['c'] for x in l['fs']) for l in tp['t']['work']]
+        return len(tot) >= 2 and len(set(tot)) < len(tot)
+    nties = 0
+    for tp in all_tuples():
+        ntuples += 1
+        if sample is None or rs.random() < 1e-4:
+            sample = tp
+        if ties(tp):                   # reservoir sample of tie-rich tuples
+            nties += 1
+            if len(tie_tuples) < cap:
+                tie_tuples.append(tp)
+            else:
+                j = rs.randrange(nties)
+                if j < cap:
+                    tie_tuples[j] = tp
         msg = check_tuple(tp)
         t = tp['t']
         if len(t['work']) >= 2 and len(t['groups']) >= 2:
@@ -196,13 +222,12 @@ def main(tier: str, seed: int) -> int:
                          'msg': msg.split(':')[0]}, replay={'tuple': tp})
     # purity across interpreters: ranks are separate processes with their own
     # string hash seed; use the tie-rich tuples
-    def ties(tp):
-        tot = [sum(x['c'] for x in l['fs']) for l in tp['t']['work']]
-        return len(tot) >= 2 and len(set(tot)) < len(tot)
-    tie_tuples = [tp for tp in tuples if ties(tp)]
-    import random as _r
-    _r.Random(seed).shuffle(tie_tuples)
-    msg = assign.cross_interpreter(tie_tuples[:400 if tier == 'quick' else 5000])
+    import shutil
+    shutil.rmtree(sdir, ignore_errors=True)
+    if ntuples != distinct:
+        raise RuntimeError(
+            f'emitted {ntuples} tuples but TLC found {distinct}')
+    msg = assign.cross_interpreter(tie_tuples)
     if msg:
         v.violation(msg, {'kind': 'hashseed'})
     nrand, rbad = random_instances(3000 if tier == 'quick' else 60000, seed)
@@ -212,9 +237,9 @@ def main(tier: str, seed: int) -> int:
                     replay=b)
     v.coverage = {
         'states': r.distinct, 'transitions': max(r.generated, 1),
-        'traces_validated_against_impl': len(tuples),
-        'samples': [tuples[len(tuples) // 2]] if tuples else ['none'],
-        'evaluations': len(tuples) + nrand,
+        'traces_validated_against_impl': ntuples,
+        'samples': [sample] if sample else ['none'],
+        'evaluations': ntuples + nrand,
         'distinct_nontrivial': len(nontrivial),
         'rule': 'every TLC state (argument tuple) replayed into '
                 'greedy_assignment; non-trivial = >= 2 layers and >= 2 groups',
